@@ -62,3 +62,35 @@ def _(self: Union[RESP(DebugAuthenticateResponseRSA), RESP(DebugAuthenticateResp
 
 
 inline("spsdk.dat.dar_packet:DebugAuthenticateResponse._get_signature")
+
+
+# ---- RoT meta (RSA credentials 1.0 / 1.1): the table the credential carries and its hash are the image tool's RKHT / RKTH -------------
+from spsdk.dat.debug_credential import RotMetaRSA  # noqa: E402
+from specs.crypto import HASH  # noqa: E402
+
+
+def ROTM(k):
+    return Obj(RotMetaRSA, rot_items=ListOf(Bytes(32), k))
+
+
+def rkht_table(items):
+    """Reference (RKHTv1.export, proved in C03): four 32-byte slots in key order, missing slots zero."""
+    out = b""
+    for it in items:
+        out = out + it
+    return out + bytes(32 * (4 - len(items)))
+
+
+@contract("spsdk.dat.debug_credential:RotMetaRSA.export")
+def _(self: Union[ROTM(1), ROTM(2), ROTM(3), ROTM(4)]) -> bytes:
+    returns(rkht_table(self.rot_items), label="four-slots-in-key-order-missing-slots-zero")
+    ensures(len(result) == 128, label="always-128-bytes")
+    pure()
+    sample_with(lambda rnd: {"self": RotMetaRSA([bytes(rnd.getrandbits(8) for _ in range(32)) for _ in range(rnd.randrange(1, 5))])})
+
+
+@contract("spsdk.dat.debug_credential:RotMetaRSA.calculate_hash")
+def _(self: Union[ROTM(1), ROTM(2), ROTM(3), ROTM(4)]) -> bytes:
+    returns(HASH("sha256", rkht_table(self.rot_items)), label="rot-hash-is-the-image-tools-rkth")
+    pure()
+    sample_with(lambda rnd: {"self": RotMetaRSA([bytes(rnd.getrandbits(8) for _ in range(32)) for _ in range(rnd.randrange(1, 5))])})
